@@ -462,6 +462,9 @@ func (b *Builder) fill(v *jv.V, t reflect.Type, depth int) reflect.Value {
 		return out
 	case reflect.Float32, reflect.Float64:
 		f, _ := v.N.Float64()
+		if v.NegZero() {
+			f = math.Copysign(0, -1)
+		}
 		out := reflect.New(t).Elem()
 		out.SetFloat(f)
 		return out
